@@ -52,8 +52,8 @@ def run(ctx):
         for r in idx:
             C.append(xh.Cond(H, 'deriv', timeout=300 if q else 900, path_timeout=30, env={'VP_VERSIONS': '0,2,4,6,8'},
                              name='deriv/%s/v%s' % (rules[r], deriv.VERSIONS[vi]),
-                             extra_pre=['vi == %d' % vi, 'r == %d' % r] + (['c3 < 3', 'c4 == 0'] if q else ['c4 < 2']),
+                             extra_pre=['vi == %d' % vi, 'r == %d' % r] + (['c3 < 3', 'c4 == 0'] if q else ['c3 < 3', 'c4 < 2']),
                              bound='derivations from file_input and eval_input through rule %s with %s free arc choices' % (
-                                 rules[r], '6x6x3' if q else '6x6x6x2'),
+                                 rules[r], '6x6x3' if q else '6x6x3x2'),
                              realised='4 arc choices, start-rule flag (complete)'))
     xh.run_conditions(ctx, C)
